@@ -10,8 +10,8 @@ import (
 	"os/exec"
 	"path/filepath"
 	"reflect"
-	"sort"
 	"regexp"
+	"sort"
 	"strconv"
 	"strings"
 
